@@ -30,7 +30,9 @@ def buffer_model(ctx, deep=True):
         ctx.tlc_replay("MCBuffer", "Buffer.cfg", ["buffer-replay", "-prop", ctx.prop], consts=dp6)
 
 
-BUFFER_RULE = ("TLC enumerates every sequence of Write/WriteByte/WriteRune/SetMode/Reset/Take up to MaxOps operations "
+BUFFER_RULE = ("long-drive: payload lengths around the implementation's size thresholds (63-66, 127-130, 255-257, 300, 1000, 5000, "
+               "65535-65537, 70000) in buffer histories with Reset/Take continuations and in printing calls, judged model-free. "
+               "TLC enumerates every sequence of Write/WriteByte/WriteRune/SetMode/Reset/Take up to MaxOps operations "
                "with every payload over the 6-byte alphabet {E2,80,B9,BA,'a',LF} up to MaxPay bytes (raw-mode writes: "
                "well-formed fragments); each explored transition is replayed on the real Buffer in 4 variants "
                "(Write/WriteString, Take variants, accessors inserted after every call); distinct = distinct hidden "
@@ -148,7 +150,13 @@ def mode_traces(ctx):
             ctx.mode_trace_validate(f, "repo-test-suite/%d" % k, control=False)
 
 
+def registry_model(ctx):
+    """MCRegistry: every order of registering every subset of four types of four kinds, each behaviour in its own process"""
+    ctx.tlc_replay("MCRegistry", "Registry.cfg", ["registry-replay", "-prop", ctx.prop], workers=1)
+
+
 def c05(ctx):
+    registry_model(ctx)
     printer_slice(ctx, tier(ctx, "qcls", "cls"))
     printer_slice(ctx, "dir")
     mode_traces(ctx)
@@ -413,21 +421,21 @@ PROPS = {
         "unexported field, pointer-to-struct, slice inside an unexported field) as RedactableString and RedactableBytes, "
         "concatenated by Sprintf with literals, joined with 3 delimiters and the joined value printed again; model "
         "invariants: identity, concatenation, Redact/Strip distribute, closure; on the real code the expectation is "
-        "obtained relationally (same call with plain placeholders) and Join/JoinTo are run on the real strings"), assumptions=[
+        "obtained relationally (same call with plain placeholders) and Join/JoinTo are run on the real strings Also: StringBuilder operands (SafeFormat prints the redactable they hold), reflect.Values obtained through an unexported field, Go-syntax (%#v) printing of typed containers, an empty unsafe operand before a redactable."), assumptions=[
         "%T and %p are excluded (property text)"]),
     "C16": dict(run=c16, exhaustive=True, rule=PRINTER_RULE + (
         "C16: for every case of the slices (classification shapes, wrapper nestings; thorough: also panicking methods, smoke, "
         "concrete hot bytes) TLC evaluates the four routes (direct, StringBuilder.Print/Printf = PreRedactable write of a "
         "finished text, SafePrinter.Print/Printf inside Sprintfn, inside a SafeFormat method) and checks equality up to "
         "merging of adjacent envelopes; on the real code the 4 print-style or 4 printf-style routes are run on the same "
-        "operands and compared, Fprint/Fprintf with recording writers that succeed, fail and write short"), assumptions=[
+        "operands and compared, Fprint/Fprintf with recording writers that succeed, fail and write short Also: a recording writer that offers WriteString (the text must still come through one Write); the strings returned by the nested routes are kept and re-compared after later prints; pool discipline monitor."), assumptions=[
         "an argument list whose direct printing panics out is outside (a nested route adds a catchPanic layer)"]),
     "C15": dict(run=c15, exhaustive=True, rule=PRINTER_RULE + (
         "C15: slice errorf = formats of 1..3 directives from {%w %v %d %[1]w %[2]w %5w %+w %#w} (quick: 4 of them) x operand "
         "lists of length 0..2 over {error, error+Formatter, error+SafeFormatter, Safe(err), Unsafe(err), nil-receiver error, "
         "nil, int, string, Stringer, panicking error}; model invariant: returned error = statement (modulo the F4 class); the "
         "real HelperForErrorf is judged by the statement: returned error identity, %w text = %v text, misuse reported, text = "
-        "Sprintf's, and message/Unwrap of fmt.Errorf for at most one %w and plain operands"), assumptions=[
+        "Sprintf's, and message/Unwrap of fmt.Errorf for at most one %w and plain operands Quick kinds also error+SafeFormatter, error+SafeMessager, struct operands, %d among the directive pairs."), assumptions=[
         "wrapped operands and '+'/'#' flags on %w are not compared with fmt.Errorf (Go >= 1.20 treats %w flags like %v's; the fork's base does not)",
         "F4, F5 are known findings"]),
     "C17": dict(run=c17, exhaustive=True, rule=PRINTER_RULE + (
@@ -435,13 +443,13 @@ PROPS = {
         "+SafeValue, registered type, nil receiver, panicking Error, non-error) x 10 positions (top, Safe, Unsafe, slice, map "
         "key/value, exported/unexported field, pointer-to-struct, inside Unsafe) x 8 directives + Sprint + %w / %w%w through "
         "HelperForErrorf, under hook kinds plain (safe+unsafe emitters), print (nested Print), panic, and none; the real hook "
-        "records every invocation (error identity, verb) which must equal what the statement names"), assumptions=[
+        "records every invocation (error identity, verb) which must equal what the statement names Also: %w spelled with flag / width / index; a panic in the hook must not reach the caller; the hook registered or removed after printers were pooled applies at the next call (pool-history -hook); absolute expectation for an error chain rendered through the hook."), assumptions=[
         "an error printed inside a bad-verb report (erroring) or behind an unexported field is not formatted through method dispatch"]),
     "C02": dict(run=c02, exhaustive=True, rule=PRINTER_RULE + (
         "C02: each case is run twice with two instantiations of every payload the statement does not declare safe "
         "(strings with disjoint sentinel alphabets, equal emptiness and line-feed skeleton; distinct numbers), public "
         "payloads shared; Redact() of both results must be byte-identical and free of sentinels. Slices: classification "
-        "shapes x leaf kinds x verbs (cls), wrapper nestings (wrap), panicking methods (panic)"), assumptions=[
+        "shapes x leaf kinds x verbs (cls), wrapper nestings (wrap), panicking methods (panic) Further stages: FmtSort/MCSort (order of map entries: every key set of <= 3/4 keys of 9 kinds; real maps with the keys at the extremes of their range and an order-isomorphic tame instantiation must redact identically); maporder-drive (11 key kinds x all subsets of size 2-3 of a 7-point alphabet); secrets-drive (the fmt-compatible universe of C04 plus 31 redact-specific values built from two secrets x 18 verbs x flag grid + random multi-operand formats); the underlying values of model objects are secrets unless declared safe; control: the pre-repair model of F8 must violate the classification invariant."), assumptions=[
         "pointer values and type names are public; cases printing pointer addresses are skipped (addresses differ per allocation)",
         "container lengths, emptiness and line-feed positions are part of the shape (property text)"]),
     "C05": dict(run=c05, exhaustive=True, rule=PRINTER_RULE + (
@@ -450,7 +458,7 @@ PROPS = {
         "SafeValue+Stringer, registered type, SafeMessager, Stringer, error, nil, Safe(string), Safe(int)) x 10 directives "
         "+ Sprint; model invariant: deleting envelopes leaves all structure and exactly the tokens the statement-level "
         "classification (an inherited attribute, independent of modes/overrides) declares safe; the same equation is "
-        "evaluated on the real output with the Go port of that classification"), assumptions=[
+        "evaluated on the real output with the Go port of that classification Further stages: MCRegistry (every order of registering every subset of four types of four kinds, each behaviour in a process of its own, probes after every registration); struct types registered as safe; mode_traces (the mode monitor on the whole value universe and ModeTrace validation of the mode/override events of mode-drive and of the repository test suite)."), assumptions=[
         "<nil>, type names, field names and punctuation are structure (visible); a SafeValue behind an unexported field is "
         "treated as unsafe by the code (over-redaction, accepted, DESIGN 11)"]),
     "C06": dict(run=c06, exhaustive=True, rule=PRINTER_RULE + (
@@ -458,13 +466,13 @@ PROPS = {
         "Safe(), RedactableString, SafeFormatter scripts calling Print/Printf/Safe*/Unsafe*/Write, Formatters that "
         "discover the SafePrinter and call Print/Printf) x 9 wrapper nestings (U S US SU UUS SSU USU and inside slices) "
         "x 9 directives + Sprint; predicates on the real output: Unsafe-outermost => nothing of the operand outside "
-        "envelopes; Safe-outermost of an unclassified value => no envelope; characters equal fmt's"), assumptions=[
+        "envelopes; Safe-outermost of an unclassified value => no envelope; characters equal fmt's Further stages: the wrap slice also with the error hook installed (bypassed under Unsafe()); mode_traces: mode monitor (no write outside the unsafe mode under an Unsafe() override, none in it under Safe(); nested printers count under their parent) + ModeTrace."), assumptions=[
         "the 'characters are fmt's' clause is applied to Unsafe(x) for fmt-compatible x and to Safe(x) for x without own classification; %T and %p excluded"]),
     "C11": dict(run=c11, exhaustive=True, rule=PRINTER_RULE + (
         "C11: slice panic = 6 payload kinds x 16 panicking objects (every method kind; SafeFormat/Format scripts with the "
         "panic after 0..3 writes, inside nested Print/Printf, nil receivers) x 6 contexts (top, Safe, Unsafe, slice, struct "
         "fields exported/unexported) x 4 directives + Sprint, each also with hot payloads; plus the exhaustive buffer model "
-        "with every rune class incl. surrogates, negative and > U+10FFFF"), assumptions=[
+        "with every rune class incl. surrogates, negative and > U+10FFFF Further stages: the panic-twin relational oracle (same call with placeholders where methods would panic); MCWriter call sequences incl. JoinTo on nil / non-slice / typed-nil operands; fmt differential (no panic where fmt has none); long-drive (payload lengths around the size thresholds)."), assumptions=[
         "a panic raised while printing the panic payload propagates, as in fmt (property text)"]),
     "C04": dict(run=c04, exhaustive=False, rule=(
         "(1) TLC enumerates every format string of at most MaxTok tokens over {% # 0 + - space 1 * . [ ] v d Z e-acute a} for "
@@ -502,8 +510,9 @@ PROPS = {
         "raw (PreRedactable) writes are well-formed fragments, the mode's documented precondition"]),
     "C03": dict(run=c03, rule=BUFFER_RULE, exhaustive=True, assumptions=[
         "raw (PreRedactable) writes are well-formed, line-safe fragments"]),
-    "C09": dict(run=c09, rule=("MCWriter: TLC enumerates every sequence of at most 3 SafeWriter calls over 14 (quick) / 26 "
-        "(thorough) call instances (Safe/Unsafe String, Bytes, Rune, Byte, SafeInt, Print, Printf, Write with ordinary, marker, "
+    "C09": dict(run=c09, rule=("MCWriter: TLC enumerates every sequence of at most 3 SafeWriter calls over 24 (quick) / 54 "
+        "(thorough) call instances (Safe/Unsafe String, Bytes, Rune, Byte, SafeInt/Uint/Float, Print, Printf, JoinTo, Write, WriteString, "
+        "WriteByte, WriteRune with ordinary, marker, marker-look-alike, "
         "LF, empty, truncated-UTF-8 and invalid-rune payloads), runs them in lockstep on the builder model and the printer "
         "model in unsafe (Sprintfn) and safe (SafeFormat) ambient mode, and checks well-formedness, line-safety, the two "
         "denotation equalities and pairwise agreement up to envelope merging; every sequence is replayed on the real "
